@@ -437,18 +437,62 @@ func init() {
 		if x.Const {
 			return mkStr(strings.TrimSpace(x.SVal))
 		}
-		// only emptiness of the result is observable to callers in scope:
-		// result == "" iff every character is ASCII white space.
+		// exact: x = lead ++ r ++ trail with lead and trail made of white space only and r
+		// neither starting nor ending with white space
 		if x.MaxLen < 0 {
 			e.abort("unsupported", "TrimSpace on unbounded string")
 		}
-		allSpace := &Term{Op: "raw", K: KBool, Args: []*Term{x}, MaxLen: -1,
-			text: fmt.Sprintf(`(str.in_re %s (re.* (re.union (str.to_re " ") (re.range "\u{9}" "\u{d}"))))`, x.String())}
-		r := e.freshStr("trimspace", x.MaxLen)
-		e.addPC(Eq(Eq(r, mkStr("")), allSpace))
-		e.addPC(strContains(x, r))
-		e.addPC(intLe(strLenInt(r), strLenInt(x)))
+		const wsRe = `(re.union (str.to_re " ") (re.range "\u{9}" "\u{d}"))`
+		inRe := func(t *Term, re string) *Term {
+			return &Term{Op: "raw", K: KBool, Args: []*Term{t}, MaxLen: -1, text: fmt.Sprintf("(str.in_re %s %s)", t.String(), re)}
+		}
+		lead, r, trail := e.freshStr("trim_lead", x.MaxLen), e.freshStr("trimspace", x.MaxLen), e.freshStr("trim_trail", x.MaxLen)
+		e.addPC(Eq(x, strConcat(strConcat(lead, r), trail)))
+		e.addPC(inRe(lead, "(re.* "+wsRe+")"))
+		e.addPC(inRe(trail, "(re.* "+wsRe+")"))
+		nonWs := "(re.diff re.allchar " + wsRe + ")"
+		e.addPC(inRe(r, "(re.union (str.to_re \"\") "+nonWs+" (re.++ "+nonWs+" (re.* re.allchar) "+nonWs+"))"))
 		return r
+	})
+	// strings.Cut(s, sep): before, after, found
+	reg("strings.Cut", func(e *Engine, fn *ssa.Function, a []Value, s ssa.Instruction) Value {
+		x, sep := T(a[0]), T(a[1])
+		if x.Const && sep.Const {
+			b, af, ok := strings.Cut(x.SVal, sep.SVal)
+			return Tuple{mkStr(b), mkStr(af), mkBool(ok)}
+		}
+		idx := strIndexOf(x, sep, mkInt(0))
+		if !e.decide(intLe(mkInt(0), idx)) {
+			return Tuple{x, mkStr(""), tFalse}
+		}
+		off := intAdd(idx, strLenInt(sep))
+		before := strSubstr(x, mkInt(0), idx)
+		after := strSubstr(x, off, intSub(strLenInt(x), off))
+		before.MaxLen, after.MaxLen = x.MaxLen, x.MaxLen
+		return Tuple{before, after, tTrue}
+	})
+	// strings.SplitN for n == 2 (the only use in scope): at most one cut
+	reg("strings.SplitN", func(e *Engine, fn *ssa.Function, a []Value, s ssa.Instruction) Value {
+		x, sep, n := T(a[0]), T(a[1]), T(a[2])
+		if x.Const && sep.Const && n.Const {
+			var out []*Term
+			for _, p := range strings.SplitN(x.SVal, sep.SVal, int(signExt(n.UVal, 64))) {
+				out = append(out, mkStr(p))
+			}
+			return mkStrSlice(out)
+		}
+		if !n.Const || signExt(n.UVal, 64) != 2 || !sep.Const || sep.SVal == "" {
+			e.abort("unsupported", "strings.SplitN other than n == 2 with a constant separator")
+		}
+		idx := strIndexOf(x, sep, mkInt(0))
+		if !e.decide(intLe(mkInt(0), idx)) {
+			return mkStrSlice([]*Term{x})
+		}
+		off := intAdd(idx, mkInt(int64(len(sep.SVal))))
+		before := strSubstr(x, mkInt(0), idx)
+		after := strSubstr(x, off, intSub(strLenInt(x), off))
+		before.MaxLen, after.MaxLen = x.MaxLen, x.MaxLen
+		return mkStrSlice([]*Term{before, after})
 	})
 	reg("strings.Split", func(e *Engine, fn *ssa.Function, a []Value, s ssa.Instruction) Value {
 		x, sep := T(a[0]), T(a[1])
